@@ -148,6 +148,8 @@ class Kind:
         return 0
     def skip_malformed(self, hx):     # malformed inputs on which the Go decoder is not a function of the input
         return False
+    def probe(self, H):               # look at the implementation once before generating (model variant selection)
+        pass
     def rt_ok(self, x, got):          # round-trip oracle on Go's decoded value
         return got == [0, self.proj(x)]
 
@@ -339,25 +341,22 @@ class DatatypeK(Kind):
 
 
 class DatatypeVlen(DatatypeK):
-    """D10: the variable-length datatype header does not round-trip"""
+    """variable-length datatypes (D10: the header did not round-trip before /repo 71914eb)"""
     name = "datatype"
     label = "datatype_vlen"
 
     def gen(self, rng, i):
         base = py_enc_simple_dt(*gen_simple_dt(rng, classes=(0, 1, 3)))
-        return {"class": 9, "version": rng.choice([0, 0, 1]), "size": 16, "cbf": rng.choice([0, 1, 0x101, rng.getrandbits(12)]), "props": base.hex()}
+        if i % 5 == 4:
+            base = bytes.fromhex(DatatypeK.gen(self, rng, rng.randrange(9))["props"]) or base
+        return {"class": 9, "version": rng.choice([0, 0, 1, 15]), "size": rng.choice([16, 16, 1, (1 << 32) - 1]),
+                "cbf": rng.choice([0, 1, 0x101, 0xFFFFFF, rng.getrandbits(12)]), "props": base.hex()}
     def invalid(self, rng):
         return []
     def wf_expr(self, x):
-        return None
+        return "wf_vlen " + self.coq(x)
     def proj(self, x):
-        # what a repaired encoder must give back (version is the encoder's choice)
-        return [9, None, x["size"], x["cbf"], x["props"]]
-    def rt_ok(self, x, got):
-        if got[0] != 0:
-            return False
-        v = got[1]
-        return [v[0], v[2], v[3], v[4]] == [9, x["size"], x["cbf"], x["props"]]
+        return [9, 1, x["size"], x["cbf"], x["props"]]
 
 
 class AttributeK(Kind):
@@ -536,8 +535,21 @@ class OhdrV1(OhdrV2):
 
     def invalid(self, rng):
         return []
+    # Which size-field computation does the tree under test use?  Decided on a probe header (two 16-byte
+    # messages: 16+8*2 = 32 before notes/fixes/ohdr-v1-size-field.patch, 48 message bytes after it); the model
+    # has both variants (enc_ohdr_v1_gen false/true) with C11_ohdr_v1_refuted resp. the repaired-witness lemma.
+    repaired = None
+    def probe(self, H):
+        p = dict(_sb=dict(v=0, o=8, l=8, be=False, addr=0), version=1, flags=0, refcount=1,
+                 msgs=[dict(type=17, data="00" * 16), dict(type=1, data="00" * 16)], suf="")
+        r = vlib.run_harness(H, "c11", [dict(kind=self.name, val=self.go(p), sb=p["_sb"])])[0]
+        field = int.from_bytes(bytes.fromhex(r["enc"])[8:12], "little")
+        if field not in (32, 48):
+            raise RuntimeError("object header v1 size field of the probe is %d (expected 32 or 48)" % field)
+        self.repaired = field == 48
     def enc_expr(self, x):
-        return "(zeros (N.to_nat %d) ++ enc_ohdr_v1 %s ++ %s)%%list" % (x["_sb"]["addr"], self.coq(x), cbytes(x["suf"]))
+        return "(zeros (N.to_nat %d) ++ enc_ohdr_v1_gen %s %s ++ %s)%%list" % (
+            x["_sb"]["addr"], "true" if self.repaired else "false", self.coq(x), cbytes(x["suf"]))
     def encok_expr(self, x):
         return None
     def wf_expr(self, x):
@@ -862,7 +874,7 @@ KINDS = [Dataspace(), Layout(), DatatypeK(), DatatypeVlen(), AttributeK(), Super
          LinkK(), LinkInfoK(), AttrInfoK(), SymtabK(), CompoundK(), CompoundGreedy(), ArrayK(), EnumK(), FilterPipeK()]
 
 # kinds whose encoder/decoder pair is known not to round-trip: id of the KNOWN_FINDINGS entry
-KNOWN_ROUNDTRIP = {"datatype_vlen": "C11-vlen-datatype-header", "ohdr_v1": "C11-ohdr-v1-size-field",
+KNOWN_ROUNDTRIP = {"ohdr_v1": "C11-ohdr-v1-size-field",
                    "compound_greedy_member": "C11-compound-member-extent"}
 
 
@@ -909,8 +921,9 @@ def goval(v):
 def run(ctx):
     H, rng = ctx.harness, ctx.rng
     quick = ctx.tier != "thorough"
-    n_values = 320 if quick else 20000
-    n_mal_src = 110 if quick else 4000       # valid encodings that seed the malformed stream
+    n_values = 160 if quick else 20000
+    n_mal_src = 50 if quick else 4000        # valid encodings that seed the malformed stream
+    n_trunc, n_flip = (2, 4) if quick else (3, 5)
     viol, known, samples = [], [], []
     cov_kinds = {}
     evaluations = 0
@@ -921,6 +934,7 @@ def run(ctx):
 
     for K in KINDS:
         K.label = K.label or K.name
+        K.probe(H)
         vals = [K.gen(rng, i) for i in range(n_values)]
         inval = K.invalid(rng)
         cases = [dict(kind=K.name, val=K.go(x), sb=x.get("_sb")) for x in vals + inval]
@@ -974,7 +988,7 @@ def run(ctx):
         mal = []
         skipped_mal = 0
         for x, r in srcs:
-            for how, hx in mutations(rng, r["enc"], 3, 5, K.focus(x)):
+            for how, hx in mutations(rng, r["enc"], n_trunc, n_flip, K.focus(x)):
                 if K.skip_malformed(hx):
                     skipped_mal += 1
                     continue
@@ -998,7 +1012,7 @@ def run(ctx):
         evaluations += len(exprs)
         distinct += len(encs)
         cov_kinds[K.label] = dict(values=len(vals), distinct_encodings=len(encs), invalid_values=len(inval),
-                                 malformed=len(mal), malformed_skipped_nondeterministic=skipped_mal, malformed_outcomes=mclass, coq_checks=len(exprs),
+                                 malformed=len(mal), malformed_skipped_nondeterministic=skipped_mal, model_variant=getattr(K, 'repaired', None), malformed_outcomes=mclass, coq_checks=len(exprs),
                                  shapes=dict(sorted(hist.items(), key=lambda kv: -kv[1])[:12]), n_shapes=len(hist))
         if vals:
             samples.append(dict(kind=K.name, value=K.go(vals[0]), sb=vals[0].get("_sb"), enc=res[0].get("enc"), dec=res[0].get("dec")))
@@ -1010,7 +1024,7 @@ def run(ctx):
         k = 0
         while k < len(exprs):
             size, j = 0, k
-            while j < len(exprs) and size < 60000 and j - k < 400:
+            while j < len(exprs) and size < 36000 and j - k < 300:
                 size += len(exprs[j][1])
                 j += 1
             nm = "c_%s_%d" % (K.label, k)
